@@ -83,13 +83,22 @@ func runC01(c *Ctx) {
 				dur = p
 			}
 		}
-		calls := Calls(fn, sNewDoAt)
+		allCalls := Calls(fn, sNewDoAt)
+		// the call that builds the schedule with tokens; a separate early return of a zero-token schedule
+		// (NewDoAtSchedule(duration, 0, ...)) only has to pass the duration on
+		var calls []ssa.Instruction
+		for _, cl := range allCalls {
+			c.Check(CC(cl).Args[0] == ssa.Value(dur), "O1.2", fk(fn)+":duration-passed-unchanged", cl.Pos(), "NewDoAtSchedule's duration must be the constructor's duration parameter itself")
+			if k, isK := ConstInt(CC(cl).Args[1]); isK && k == 0 {
+				continue
+			}
+			calls = append(calls, cl)
+		}
 		if dur == nil || len(calls) != 1 {
 			c.Anchor("O1.2", name+": one NewDoAtSchedule call and a time.Duration parameter")
 			continue
 		}
 		cc := CC(calls[0])
-		c.Check(cc.Args[0] == ssa.Value(dur), "O1.2", fk(fn)+":duration-passed-unchanged", calls[0].Pos(), "NewDoAtSchedule's duration must be the constructor's duration parameter itself")
 		// seconds = float64(duration)/1e9
 		var isSecondsOf func(v, d ssa.Value, depth int) bool
 		isSecondsOf = func(v, d ssa.Value, depth int) bool {
